@@ -38,6 +38,7 @@ import lua_wireshark as LW  # noqa: E402
 import samples  # noqa: E402
 import wire_ref  # noqa: E402
 
+LIMIT_FACTOR = 500        # real-Lua VM instructions (the Lua-written stub included) allowed per step of the Python interpreter
 DEFAULT_CLI = os.environ.get("LUA_DIFF_CLI", "/tmp/wt/C15/_bin/fin-protoc")
 
 
@@ -53,6 +54,7 @@ class Tally:
         self.dis = []             # (id, what, detail): BEHAVIOUR differs (ok flags, values, adds, columns)
         self.minor = []           # (id, what, detail): both raise an error at the same point, the message TEXT differs
         self.unsupported = []     # (id, text): construct outside the Python interpreter's subset
+        self.limits = []          # (id, text): exactly one side ran into its execution limit (the limits are not comparable)
         self.extra = {}
 
     def ok(self):
@@ -186,7 +188,7 @@ class Dual:
         limit = lua_real.DEFAULT_LIMIT
         if max_steps is not None:
             kw["max_steps"] = max_steps
-            limit = max_steps * 20
+            limit = max_steps * LIMIT_FACTOR
         try:
             self.py = LW.Session(src, chunk, strict=strict, **kw)
         except Exception as e:          # interpreter bug
@@ -233,8 +235,13 @@ class Dual:
         probs = []
         if p["ok"] != r["ok"]:
             probs.append("ok flag: python %s (%s) / real %s (%s)" % (p["ok"], p["err"], r["ok"], r["err"]))
-        if not p["ok"] and not r["ok"] and split_err(p["err"])[2] == split_err(r["err"])[2] == "<limit exceeded>":
+        plim = not p["ok"] and split_err(p["err"])[2] == "<limit exceeded>"
+        rlim = not r["ok"] and split_err(r["err"])[2] == "<limit exceeded>"
+        if plim and rlim:
             t.ok()                  # both were stopped by their (different) execution limits: nothing else is comparable
+            return p
+        if plim or rlim:
+            t.limits.append((ident, "python: %s / real: %s" % (p["err"] or "ok, %d adds" % len(p["adds"]), r["err"] or "ok, %d adds" % len(r["adds"]))))
             return p
         pa, ra = p["adds"], r["adds"]
         for i in range(max(len(pa), len(ra))):
@@ -306,7 +313,7 @@ def run_plain_both(tally, ident, src, max_steps=None, chunk="t"):
     limit = lua_real.DEFAULT_LIMIT
     if max_steps is not None:
         kw["max_steps"] = max_steps
-        limit = max_steps * 20
+        limit = max_steps * LIMIT_FACTOR
     it = EmitInterp(chunk, **kw)
     res = {"loaded": True, "ok": False, "err": None, "ret": [], "emit": [], "out": []}
     outcome = None
@@ -450,7 +457,9 @@ def section_corpus(args, tally):
             st["files"] += 1
             with open(path, "rb") as fh:
                 src = fh.read()
-            d = Dual(tally, "%s %s" % (pid, os.path.relpath(path, keep)), src, os.path.basename(path))
+            # execution limit: 200k interpreter steps / 4M real instructions (a 130-element list needs a few thousand);
+            # keeps dissectors that loop over a huge count without consuming bytes (repeat of an empty packet) cheap
+            d = Dual(tally, "%s %s" % (pid, os.path.relpath(path, keep)), src, os.path.basename(path), max_steps=200000)
             if d.usable:
                 st["loaded_ok"] += 1
                 seen = set()
@@ -869,13 +878,19 @@ SECTIONS = [("corpus", section_corpus, "generated dissectors over wire messages"
             ("unit", section_unit, "snippets of test_lua_interp.py")]
 
 
+def clip(text, n=700):
+    return "\n".join(ln if len(ln) <= n else ln[:n] + " ...[%d more characters]" % (len(ln) - n) for ln in text.split("\n"))
+
+
 def report(t, verbose):
     print("  comparisons %d   agreements %d   BEHAVIOUR disagreements %d   error-text-only differences %d   (line-only differences %d, outside the python subset %d)" % (
         t.n, t.agree, len(t.dis), len(t.minor), len(t.line_only), len(t.unsupported)))
     for ident, what, detail in t.dis:
-        print("  DISAGREE %s\n        %s\n          %s" % (ident, what, detail))
+        print("  DISAGREE %s\n        %s\n          %s" % (ident, what, clip(detail)))
     for ident, what, detail in t.minor:
-        print("  text-only %s\n        %s\n          %s" % (ident, what, detail))
+        print("  text-only %s\n        %s\n          %s" % (ident, what, clip(detail)))
+    for ident, text in t.limits:
+        print("  not-comparable (only one side hit its execution limit) %s: %s" % (ident, clip(text, 300)))
     if t.line_only:
         shown = t.line_only if verbose else t.line_only[:5]
         for ident, pl, rl, msg in shown:
